@@ -334,6 +334,8 @@ class RefSFTP:
                 self.status(rid, FX_FAILURE)
                 return req
             data = bytes(self.files[h[1]][f['offset']:f['offset'] + f['len']])
+            if getattr(self, 'max_read_limit', 0):
+                data = data[:self.max_read_limit]       # a server that enforces the limit it announced by answering short
             self.max_read = max(self.max_read, f['len'])
             if variant == 'eof' or not data:
                 self.status(rid, FX_EOF)
@@ -418,7 +420,8 @@ class RefSFTP:
         elif t == FXP['EXTENDED']:
             ext = f['ext']
             if ext == b'limits@openssh.com':
-                self._send(bytes([FXP['EXTENDED_REPLY']]) + u32(rid) + u64(0) + u64(0) + u64(0) + u64(0))
+                lim = getattr(self, 'max_read_limit', 0) or 0
+                self._send(bytes([FXP['EXTENDED_REPLY']]) + u32(rid) + u64(0) + u64(lim) + u64(0) + u64(0))
             elif ext == b'statvfs@openssh.com':
                 self._send(bytes([FXP['EXTENDED_REPLY']]) + u32(rid) + b''.join(u64(x) for x in (4096, 4096, 1000, 900, 800, 100, 90, 80, 0x1234, 1, 255)))
             elif ext == b'ranges@asyncssh.com':
